@@ -29,6 +29,13 @@ pub fn replay_file() {
                 !IGNORE_CHECK_LOGIN.contains(&p) && !STATIC_FILE_PATH.is_match(p)
             }
             "console_ignore_contains" => crate::console::middle::login_middle::IGNORE_CHECK_LOGIN.contains(&p),
+            "route_match_requoted" => {
+                // what the router does: requote the raw path (actix_router::Url), then match the resource pattern
+                let uri: actix_web::http::Uri = p.parse().expect("uri");
+                let url = actix_web::dev::Url::new(uri);
+                let r = actix_web::dev::ResourceDef::new(c["route"].as_str().unwrap_or(""));
+                r.is_match(url.path())
+            }
             "route_match" => {
                 let r = actix_web::dev::ResourceDef::new(c["route"].as_str().unwrap_or(""));
                 r.is_match(p)
